@@ -536,3 +536,37 @@ SILENT += [
     ("refactor-mfi-strict-tests-swapped", "jesse/indicators/mfi.py", [("np.where(typical_prices[1:] > typical_prices[:-1], raw_mf[1:], 0)", "np.where(typical_prices[:-1] < typical_prices[1:], raw_mf[1:], 0)")], None, ["C13", "C14", "C15"]),
     ("refactor-wma-locals", "jesse/indicators/wma.py", _rename_in_function("weighted_moving_average_custom", {"windowed": "views", "result": "out"}), None, ["C13", "C14", "C15"]),
 ]
+
+
+# ---- fifth batch: whole files re-printed from their syntax tree (comments gone, layout and quoting normalised, parentheses minimal):
+# nothing a rule decides may depend on the text of the source
+def _reprint(src):
+    import ast as _ast
+    return _ast.unparse(_ast.parse(src)) + "\n"
+
+
+_ALL = ["C%02d" % i for i in range(1, 21)]
+SILENT += [
+    ("reprint-backtest-mode", BT, _reprint, None, ["C01", "C02", "C05", "C07", "C08", "C09", "C11", "C12", "C16", "C20"]),
+    ("reprint-position", "jesse/models/Position.py", _reprint, None, ["C03", "C04", "C06", "C09"]),
+    ("reprint-spot-exchange", "jesse/models/SpotExchange.py", _reprint, None, ["C04", "C17"]),
+    ("reprint-futures-exchange", "jesse/models/FuturesExchange.py", _reprint, None, ["C03", "C17", "C09"]),
+    ("reprint-strategy", "jesse/strategies/Strategy.py", _reprint, None, ["C05", "C06", "C10", "C19", "C11"]),
+    ("reprint-order", "jesse/models/Order.py", _reprint, None, ["C05", "C03", "C11"]),
+    ("reprint-closed-trade", "jesse/models/ClosedTrade.py", _reprint, None, ["C06"]),
+    ("reprint-state-candles", "jesse/store/state_candles.py", _reprint, None, ["C01", "C07", "C20"]),
+    ("reprint-state-orders", "jesse/store/state_orders.py", _reprint, None, ["C05", "C02"]),
+    ("reprint-helpers", "jesse/helpers.py", _reprint, None, ["C17", "C19", "C10", "C07", "C13"]),
+    ("reprint-utils", "jesse/utils.py", _reprint, None, ["C17", "C07", "C04"]),
+    ("reprint-candle-service", "jesse/services/candle.py", _reprint, None, ["C02", "C07", "C08", "C20"]),
+    ("reprint-metrics", "jesse/services/metrics.py", _reprint, None, ["C16"]),
+    ("reprint-research-backtest", "jesse/research/backtest.py", _reprint, None, ["C11", "C20"]),
+    ("reprint-dna", _DNA, _reprint, None, ["C18"]),
+    ("reprint-ma", "jesse/indicators/ma.py", _reprint, None, ["C13", "C14", "C15"]),
+    ("reprint-stochastic", "jesse/indicators/stochastic.py", _reprint, None, ["C13", "C14", "C15"]),
+]
+SILENT += [
+    ("reprint-rsi", "jesse/indicators/rsi.py", _reprint, None, ["C13", "C14", "C15"]),
+    ("reprint-atr", "jesse/indicators/atr.py", _reprint, None, ["C13", "C14", "C15"]),
+    ("reprint-kdj", "jesse/indicators/kdj.py", _reprint, None, ["C13", "C14", "C15"]),
+]
